@@ -82,6 +82,27 @@ def norm_tokens(text):
     return out
 
 
+def keyword_counts(text):
+    """Multiset of keyword tokens outside END statements (fparser1 may add keywords, it must not drop any)."""
+    from collections import Counter
+    c = Counter()
+    for st in lexer.split_statements(text):
+        toks = lexer.toks(st)
+        words = [t.lower() for k, t in toks if k == "name"]
+        if words[:1] == ["end"] or lexer.is_format(toks):
+            continue
+        for w in words:
+            for x in lexer.COMPOUND.get(w, [w]):
+                if x in lexer.KEYWORDS:
+                    c[x] += 1
+    return c
+
+
+def dropped_keywords(src, out):
+    a, b = keyword_counts(src), keyword_counts(out)
+    return sorted(k for k in a if b.get(k, 0) < a[k])
+
+
 def run(prop, tier=None, replay=None):
     chk = Check("C19", "exploration", tier)
     tier = chk.tier
@@ -147,8 +168,10 @@ def run(prop, tier=None, replay=None):
                 ev.append({"e": "print", "tree": t2, "text": D("src:" + x["text2"]), "tci": 0})
             else:
                 ev.append({"e": "parse", "src": s1, "cfg": cfg, "res": "esc", "tree": 0, "st": 0, "sci": 0, "line": 0, "q": 0})
-            ev.append({"e": "toks", "text": s0, "tk": D(repr(norm_tokens(c["prog"]["src"])))})
-            ev.append({"e": "toks", "text": s1, "tk": D(repr(norm_tokens(x["text"])))})
+            dk = dropped_keywords(c["prog"]["src"], x["text"])
+            x["dropped"] = dk
+            ev.append({"e": "toks", "text": s0, "tk": D(repr(norm_tokens(c["prog"]["src"])) + "|dropped:[]")})
+            ev.append({"e": "toks", "text": s1, "tk": D(repr(norm_tokens(x["text"])) + "|dropped:" + repr(dk))})
             ev.append({"e": "claim", "law": "fixpoint", "src": s0, "cfg": cfg})
             ev.append({"e": "claim", "law": "tokens", "src": s0, "cfg": cfg})
             events.extend(ev)
@@ -165,6 +188,9 @@ def run(prop, tier=None, replay=None):
             k = next((i for i, (u, v) in enumerate(zip(a, b)) if u != v), min(len(a), len(b)))
             extra = "first difference at token %d: source %s / output %s" % (k, a[max(0, k - 3):k + 4], b[max(0, k - 3):k + 4])
             sig = {"clause": clause, "src_tok": a[k] if k < len(a) else None, "out_tok": b[k] if k < len(b) else None}
+            if a == b and x.get("dropped"):
+                extra = "keywords of the source missing in the output: %s" % x["dropped"]
+                sig = {"clause": "keyword-dropped", "kw": ",".join(x["dropped"])}
         else:
             sig = {"clause": clause, "err": (x.get("err2") or "")[:40]}
         if shared:
